@@ -2,7 +2,7 @@
 
 Run on every check of C14 (through `c14.extract_tables`): `_run_deferred` with its nested callbacks, `_run_cleanups`, `_run_user`,
 `_log_user_exception`, `_blocking_run_deferred`, `_run_core`, `AsynchronousDeferredRunTestForBrokenTwisted._make_spinner`,
-`flush_logged_errors` and `assert_fails_with` are re-read from the tree under test and emitted as DATA of the types of
+`flush_logged_errors`, `assert_fails_with` and `_ErrorObserver._setUp` are re-read from the tree under test and emitted as DATA of the types of
 `TTV/Model/AsyncSkel.lean` into `TTV/Generated/AsyncSkel.lean`.  `C14_src_*` (Props/C14.lean) prove that the generated terms are the
 reference terms and that their interpretation is the hand-written model.
 
@@ -73,6 +73,8 @@ class Chain:
                 ps, b, name = [a.arg for a in d.args.args], body_of(d), e.id
             if len(ps) == 1 and len(b) == 1 and isinstance(b[0], ast.Return) and self.fails and \
                     U(b[0].value) in ('len(%s) == 0' % self.fails, 'not %s' % self.fails, '%s == []' % self.fails):
+                if name is not None:
+                    self.role.setdefault(name, '.successGuard')
                 return '.successGuard'
             if want is None or want in ('.successGuard', '.appendToFails'):
                 return '.unknown'
@@ -452,13 +454,16 @@ def brokenIterations : Nat := %s
 
 def flushLoggedErrors : FlushShape := %s
 def assertFailsWith : AssertFailsShape := %s
+def errorObserverSetUp : ObserverShape := %s
 
 end TTV.Generated.AsyncSkel
 ''' % (Chain(find(a, '_run_deferred')).run(), run_cleanups(rc),
        'true' if [U(d) for d in rc.decorator_list] == ['defer.inlineCallbacks'] else 'false',
        run_user(find(a, '_run_user')), log_user_exception(find(a, '_log_user_exception')), blocking(find(a, '_blocking_run_deferred')),
        run_core(find(a, '_run_core')), broken_iterations(find(tree, 'AsynchronousDeferredRunTestForBrokenTwisted')),
-       flush_shape(find(tree, 'flush_logged_errors')), assert_fails_shape(find(tree, 'assert_fails_with')))
+       flush_shape(find(tree, 'flush_logged_errors')), assert_fails_shape(find(tree, 'assert_fails_with')),
+       '.installedThroughLegacyWrapper' if [U(x) for x in body_of(find(tree, '_ErrorObserver._setUp'))] ==
+       ['self.useFixture(_TwistedLogObservers([self._error_observer.gotEvent]))'] else '.unknown')
 
 
 if __name__ == '__main__':
